@@ -1917,3 +1917,5 @@ for _p in ("C03", "C04", "C16"):
 for _p in ("C04", "C05"):
     PROPS[_p]["fams"] = PROPS[_p]["fams"] + [("fam_audio_vs_first_video", 60, 2000)]
 PROPS["C07"]["fams"] = PROPS["C07"]["fams"] + [("fam_reject_matrix", 120, 3000)]
+for _p in ("C18", "C19", "C07"):
+    PROPS[_p]["fams"] = PROPS[_p]["fams"] + [("fam_builder_scripts", 100, 3000)]
